@@ -11,7 +11,7 @@ formula hold in every ring.  Tie:
  (b) float tier  - crystal pool (2-D/3-D, multi-site, several Wyckoff sets, Nthermo 1-2), random energies:
      injected Lij vs the chain solved in numpy (1e-8 relative);
  (c) real Green function - un-injected Lij vs the Richardson-extrapolated injected results at two torus
-     sizes (Brillouin-zone accuracy: 5e-3 relative);  L0vv vs the exact unit-cell corrector formula.
+     sizes (Brillouin-zone accuracy: 0.5 x finite-size step + 2e-3 relative);  L0vv vs the exact unit-cell corrector formula.
 Partial: the limit M -> infinity is not formalised (tier c samples it)."""
 META = dict(
     level="proof",
@@ -21,7 +21,7 @@ META = dict(
           "un-injected Lij vs Richardson-extrapolated torus results at Brillouin-zone accuracy."),
     note=("Trusted: Coq kernel/vm_compute; harness/vm.py chain construction from the calculator's own stars/jump classes "
           "(those are C24/C26); L1vv convention (implementation omits the ghost-chain contribution of origin states); "
-          "M->infinity limit sampled, not proved; float tolerances 1e-8 (injected) / 5e-3 (real GF)."),
+          "M->infinity limit sampled, not proved; float tolerances 1e-8 (injected) / calibrated finite-size bound (real GF)."),
     technique="Coq proof (Net.v, resolvent identities) + exact torus-chain oracle via Green-function cache injection",
 )
 
@@ -236,13 +236,17 @@ def run(ck):
             I1 = vm.inject(d, args, M1); I2 = vm.inject(d, args, M2)
             Q, npolar = polar_projector(d)
             scale = np.abs(R[0]).max()
-            worst = 0.0
+            worst = 0.0; step = 0.0
             for a in range(4):
                 ext = (M2 ** dd * I2[a] - M1 ** dd * I1[a]) / (M2 ** dd - M1 ** dd)
                 worst = max(worst, np.abs(Q @ (R[a] - ext) @ Q).max() / scale)
+                step = max(step, np.abs(Q @ (I2[a] - I1[a]) @ Q).max() / scale)
+            # tolerance: the extrapolation removes the leading 1/M^d term; what is left is bounded by a fraction of the
+            # finite-size step itself (calibrated on the unchanged tree: ratio <= 0.3 over the named pool) plus BZ accuracy
+            tolreal = 0.5 * step + 2e-3
             ck.case(key=("real", label, Nth, [np.asarray(a).round(12).tolist() for a in args]), nontrivial=True, kind="realGF:%dD" % dd,
-                    sample={"tier": "real-GF", "crystal": label, "M1": M1, "M2": M2, "rel_error_vs_extrapolation": float(worst)} if nreal <= 2 else None)
-            if not worst <= 5e-3:
+                    sample={"tier": "real-GF", "crystal": label, "M1": M1, "M2": M2, "rel_error_vs_extrapolation": float(worst), "tolerance": float(tolreal)} if nreal <= 2 else None)
+            if not worst <= tolreal:
                 ck.violation("un-injected Lij differs from the Richardson-extrapolated torus limit by %.3g relative" % worst,
                              {"crystal": repr(crys), "chem": chem, "cutoff": cut, "Nthermo": Nth, "M1": M1, "M2": M2,
                               "thermo": {k: np.asarray(v).tolist() for k, v in th.items()}, "Lij": [x.tolist() for x in R],
